@@ -189,6 +189,21 @@ CHECKS["C18"] = dict(
          "stream completion); free workloads add volume.",
     ref="DESIGN.md 5 C18, 3.0 (Routing), 3.2", note=PROG_NOTE, technique=ROUTE_TECH)
 
+CHECKS["C07"] = dict(
+    engine="calls", category="fault_enumeration",
+    text="Fault enumeration driven by the specification: TLC enumerates, for qc / async / custom-return quorum calls on 2-3 "
+         "nodes with every threshold, every assignment of {reply, handler error, connection failure} to the nodes at every "
+         "position of the arrival order (5364 behaviours), with three connection-failure kinds (server stopped while the "
+         "handler is pending, stopped before the call, never started); each behaviour runs on a fresh manager and servers "
+         "(quick: 320 seeded; thorough: all, 8 drivers in parallel). TLC validates the traces against CallsTrace.tla: "
+         "outcome = the specification's (success whenever the surviving replies satisfy the QF), each failing node exactly "
+         "once in the error list and never in a QF reply set, handler failures carry the handler's status code and message, "
+         "connection failures do not, and at quiescence no call is waiting for a node whose server was stopped. "
+         "ErrorsNameNodesOnce/FailedNotReplied/QFNoFailedNode are checked by TLC on Calls.tla; 'pending requests are failed "
+         "when the stream breaks' is checked exhaustively on Channel.tla (NoStrandedCall, C09).",
+    ref="DESIGN.md 5 C07", technique="TLA+ spec (Calls.tla) + TLC-enumerated fault behaviours replayed on real code with real "
+                                      "server stops; TLC trace validation")
+
 PENDING = {
     "C03": "check under construction (Fifo layer, DESIGN.md 11 step 3)",
     "C04": "check under construction (Fifo layer, DESIGN.md 11 step 3)",
@@ -236,7 +251,7 @@ def main():
              "kind_free_text": "TLC on specs/Channel.tla (ChannelMC configs) + drive life (gated scenarios, one process each) "
                                "+ drive m3 (free workloads) + TLC trace validation with LifeTrace.tla / RoutingTrace.tla"},
             {"name": "calls", "path": "tools/check_calls.py",
-             "serves_properties": ["C01", "C02", "C06", "C11"],
+             "serves_properties": ["C01", "C02", "C06", "C07", "C11"],
              "kind_free_text": "TLC on specs/Calls.tla (CallsMC exhaustive, CallsGen behaviour generator, CallsTrace trace "
                                "validation) + Go driver harness/cmd/drive replaying the generated behaviours on the real "
                                "library"},
